@@ -193,13 +193,13 @@ PROPS = {
         assumptions=['Intel SDM models of _mm{,256,512}_shuffle_epi8, _bextr2_u32, _mm512_maskz_mov_epi8; nondeterministic CPUID/XGETBV', 'NEON kernels are cfg\'d out on this host: not covered'],
         not_decided=['lengths >= 3W, scalars x lengths product beyond the stated set', 'NEON']),
     'C04': dict(
-        level='proof', units=[('V', 'V-RNG', 'v_rng'), ('V', 'V-TAB', 'v_tab'), ('V', 'V-ENC', 'v_enc'), ('V', 'V-ENCINTO', 'v_encinto'), ('V', 'V-SLAB', 'v_slab'), ('K', 'K-TAB', None), ('K', 'K-RNG', None), ('K', 'K-ENCIDX', None), ('K', 'K-GF', None)],
-        explanation='decided part: Rand, Deg, Tuple equal the RFC definitions for every reachable argument (V-RNG/K-RNG); the Enc index sequence of the decoder-side twin enc_indices equals the RFC for every row and in-range tuple (K-ENCIDX); the encoder-side enc_into xors exactly the intermediate symbols at the RFC 5.3.5.3 walk (b + j*a mod W for j < d, then the first d1 positions of the b1 + k*a1 mod P1 walk with value < P), for ALL K\', tuples and symbol sizes (V-ENCINTO, Verus, unbounded); '
+        level='proof', units=[('V', 'V-RNG', 'v_rng'), ('V', 'V-TAB', 'v_tab'), ('V', 'V-ENC', 'v_enc'), ('V', 'V-ENCINTO', 'v_encinto'), ('V', 'V-ENCIDX', 'v_encidx'), ('V', 'V-SLAB', 'v_slab'), ('K', 'K-TAB', None), ('K', 'K-RNG', None), ('K', 'K-ENCIDX', None), ('K', 'K-GF', None)],
+        explanation='decided part: Rand, Deg, Tuple equal the RFC definitions for every reachable argument (V-RNG/K-RNG); the Enc index sequence of the decoder-side twin enc_indices (the sequence of its callback arguments, rule F1) is the RFC 5.3.5.3 walk for ALL tuples and all W, P, P1 (V-ENCIDX, Verus, unbounded) and equals the executable RFC transcription for every table row, with termination (K-ENCIDX, Kani); the encoder-side enc_into xors exactly the intermediate symbols at the RFC 5.3.5.3 walk (b + j*a mod W for j < d, then the first d1 positions of the b1 + k*a1 mod P1 walk with value < P), for ALL K\', tuples and symbol sizes (V-ENCINTO, Verus, unbounded); '
                     'repair ESI X maps to ISI X + K\' - K and payload Enc over the encoder\'s intermediate symbols, ids as prescribed, source packet i carries source symbol i (V-ENC); D = [0^(S+H), source, 0-padding] (V-SLAB create_d); '
                     'tables equal the pinned transcription and satisfy the RFC structural facts (K-TAB/V-TAB); GF(256) is the RFC field (K-GF). The oracle is an RFC transcription, so a consistent deviation shared by encoder and decoder is caught.',
         assumptions=['pinned tables == RFC 6330', 'V-ENCINTO: termination of the P1 walk not proved (partial correctness); get/add_assign/table look-up contracts assumed there and proved in V-SLAB/K-KERN/V-TAB', SOLVER_ASSUMED],
         not_decided=['that the intermediate symbols are THE solution of the pre-code system (solver) and that generate_constraint_matrix/generate_hdpc_rows build the RFC matrix',
-                     'quick tier: enc_indices for d <= 8 only (complete d <= 30 in thorough)']),
+                     'K-ENCIDX quick tier: d <= 8 only (complete d <= 30 in thorough); V-ENCIDX covers every d in both tiers but proves partial correctness (termination of the P1 walk is K-ENCIDX\'s)']),
     'C16': dict(
         level='proof', units=[('V', 'V-DENSE', 'v_dense'), ('V', 'V-SPARSE', 'v_sparse')],
         explanation='the bit-packed dense matrix against the abstract bit array cell(i, j), for all heights and widths: new (all zero), set, get, swap_rows, swap_columns (rows >= hint), add_assign_rows (row xor), '
